@@ -28,3 +28,12 @@ package pool
 //@   props C01 C20
 //@   modifies nothing
 //@   ensures len(bb) == len(b) && fresh(bb) && bytesEq(bb, 0, b, 0, len(b))
+
+// pooled bufio readers (server connection loops)
+//@ func NewBR1K(r io.Reader) (br *bufio.Reader)
+//@   trusted
+//@   modifies nothing
+//@   ensures br != nil
+//@ func ReleaseBR1K(br *bufio.Reader)
+//@   trusted
+//@   modifies nothing
